@@ -319,6 +319,13 @@ func (cs *clientStream) SendMsg(m interface{}) error {
 	}
 
 	cs.wErr = writeProtoMessage(cs.w, cs.codec, m, false)
+	if cs.wErr != nil {
+		if done, _ := cs.readErrorIfDone(); done {
+			// the write failed because the stream finished meanwhile (the
+			// request pipe is closed on completion): as above, that is EOF
+			return io.EOF
+		}
+	}
 	return cs.wErr
 }
 
